@@ -49,7 +49,7 @@ def run(drv, args, seed):
                 known_lines.append(line)
             continue
         os.makedirs(rdir, exist_ok=True)
-        rp = os.path.join(rdir, "unit-%s-seed%d.json" % (u["name"], seed))
+        rp = os.path.join(rdir, "unit-%s-seed%d.json" % (u["name"].replace("/", "_"), seed))
         json.dump({"property": "C12", "sub": "unit", "args": {"unit": u["name"], "seed": str(seed), "nrandom": str(nrandom), "random": str(u.get("random", False))},
                    "bytes_hex": u["descriptor_hex"], "failure": what[:3000]}, open(rp, "w"), indent=1)
         viols.append(("VIOLATION property=C12 replay=%s" % rp, "  detail: schema unit %s (%s): %s" % (u["name"], ", ".join(u["labels"]), what[:600].replace("\n", " | "))))
